@@ -106,8 +106,9 @@ impl<T: RealNumber, M: Matrix<T>> InteriorPointOptimizer<T, M> {
 
             let gap = pobj - dobj;
 
-            // STOPPING CRITERION
-            if gap / dobj < tol {
+            // STOPPING CRITERION (relative gap; written without the quotient: for a constant target the optimum
+            // w = 0 has pobj = dobj = gap = 0 and gap / dobj would be NaN)
+            if gap <= tol * dobj {
                 break;
             }
 
